@@ -156,6 +156,8 @@ pub fn for_each_expr(opts: &SpaceOpts, f: &(dyn Fn(&Expr) + Sync)) -> u64 {
             flags.par_iter().for_each(|s| visit(s, "flags"));
             let cased = gen::cased_family();
             cased.par_iter().for_each(|s| visit(s, "cased"));
+            let adjacent = gen::adjacent_family(opts.position_full >= 2);
+            adjacent.par_iter().for_each(|s| visit(s, "adjacent"));
         }
     }
     if opts.corpus {
